@@ -234,8 +234,9 @@ Theorem push_pull_honest s a k ci m v :
         aget (s_clients s2) a = Some (mkCI true (mkCD DAttached head' ackc (s_epoch s))) /\
         if s_head s - k_cp_s k <? s_threshold s
         then p_snapshot r = false /\
-             p_changes r = filter (fun st => negb (N.eqb (h_actor (st_ch st)) a && (h_cseq (st_ch st) <=? ackc)))
-                             (filter (in_seq_range (k_cp_s k + 1) (s_head s)) (s_log s ++ new))
+             p_changes r = strip_own_presence a
+                             (filter (fun st => negb (N.eqb (h_actor (st_ch st)) a && (h_cseq (st_ch st) <=? ackc)))
+                                (filter (in_seq_range (k_cp_s k + 1) (s_head s)) (s_log s ++ new)))
         else p_snapshot r = true /\ p_changes r = []
     end.
 Proof.
@@ -418,6 +419,18 @@ Proof.
   apply zseq_in in H0. lia.
 Qed.
 
+Lemma strip_own_id a l :
+  Forall (fun st => N.eqb (h_actor (st_ch st)) a = false) l -> strip_own_presence a l = l.
+Proof.
+  induction 1 as [|x l0 Hx Hl0 IH0]; [reflexivity|].
+  change (strip_own_presence a (x :: l0)) with
+    ((let c := st_ch x in
+      if N.eqb (h_actor c) a && negb (N.eqb (h_pres c) 0) then
+        if h_nops c =? 0 then [] else [mkSt (st_sseq x) (mkCh (h_actor c) (h_cseq c) (h_lam c) (h_vv c) (h_nops c) 0%N)]
+      else [x]) ++ strip_own_presence a l0).
+  cbn zeta. rewrite Hx. cbn [andb app]. now rewrite IH0.
+Qed.
+
 (* what a successful sync of client [a] does to the invariant of [a] itself *)
 Lemma sync_self_inv s a k m v (lost : bool) :
   log_dense s -> s_nopres s = false -> cli_inv s a k ->
@@ -505,7 +518,13 @@ Proof.
             rewrite Hlog in Hl2. apply app_inv_head in Hl2. subst nw.
             pose proof (sseq_members new (s_head s + 1) Hsq) as M.
             eapply Forall_impl; [|exact M]. cbn. intros st0 Hst0. unfold in_seq_range. lia. }
-        rewrite app_nil_r. unfold not_of. apply filter_ext_in. intros st Hin.
+        rewrite app_nil_r.
+        transitivity (filter (fun st => negb (N.eqb (h_actor (st_ch st)) a)) (skipn (Z.to_nat (k_cp_s k)) (s_log s))).
+        2:{ reflexivity. }
+        match goal with |- strip_own_presence a ?l = _ => assert (Hl : l = filter (fun st => negb (N.eqb (h_actor (st_ch st)) a)) (skipn (Z.to_nat (k_cp_s k)) (s_log s))) end.
+        2:{ rewrite Hl. apply strip_own_id. rewrite Forall_forall. intros x Hx. apply filter_In in Hx. destruct Hx as [_ Hx].
+            now apply negb_true_iff in Hx. }
+        apply filter_ext_in. intros st Hin.
         destruct (N.eqb_spec (h_actor (st_ch st)) a) as [Ea|Ea]; [|reflexivity].
         cbn [andb negb].
         assert (In st (s_log s)) by (rewrite <- (firstn_skipn (Z.to_nat (k_cp_s k)) (s_log s)); apply in_or_app; now right).
